@@ -49,4 +49,6 @@ print("demo clean=%s patched=%s tests=%s check_exit=%s detected=%s" % (cd, pd, t
 PY
 rm -rf $W
 # the generated files now describe the patched copy: put the committed ones (generated from /repo) back
-git -C "${VERIF_HOME:-/verif}" checkout -- lean/Zc/Gen 2>/dev/null
+git -C "${VERIF_HOME:-/verif}" checkout -- lean/Zc/Gen lean/Zc/GenFn 2>/dev/null
+# ... and a Gen module that exists only for the patched copy must not stay behind untracked
+git -C "${VERIF_HOME:-/verif}" clean -fdq lean/Zc/Gen lean/Zc/GenFn 2>/dev/null
